@@ -7,6 +7,7 @@ mod rawpeer;
 mod rawscript;
 mod refcodec;
 mod rng;
+mod simio;
 mod simnet;
 mod simrt;
 mod sut;
